@@ -117,7 +117,7 @@ def _gen_partition(rng):
         key.sort(reverse=True)
     vols, vstyle = _gen_volumes(rng, n)
     s, d = (key, other) if pb == "source" else (other, key)
-    form = rng.choice(["list", "list", "array", "array", "tuple", "mixed"])
+    form = rng.choice(["list", "list", "array", "array", "tuple", "mixed", "iterator"])
     if vstyle == "npint":
         form = "array"
     case = {"call": "partition_by_column", "s": s, "d": d, "v": vols, "pb": pb, "form": form}
@@ -268,6 +268,8 @@ def _container(x, form, numeric=False):
         return np.array(x) if x or not numeric else np.array(x, dtype=float)
     if form == "tuple":
         return tuple(x)
+    if form == "iterator":
+        return iter(list(x))  # the parameters are documented as Iterable: a one-shot iterator is legal
     return list(x)
 
 
